@@ -1431,7 +1431,21 @@ fn random_directive(rng: &mut Rng) -> Dir {
 }
 
 /// One random mutation; returns a label for the histogram.
-fn mutate(rng: &mut Rng, doc: &mut Doc) -> &'static str {
+fn mutate(rng: &mut Rng, doc: &mut Doc, si: &SchemaInfo) -> &'static str {
+    let type_names: Vec<String> =
+        si.types.iter().map(|t| t.name.clone()).chain(["Nope".to_string(), "Int".to_string()]).collect();
+    let field_names: Vec<String> = si
+        .types
+        .iter()
+        .flat_map(|t| t.fields.iter().map(|f| f.name.clone()))
+        .chain(["__typename".to_string(), "nope".to_string()])
+        .collect();
+    let param_names: Vec<String> = si
+        .types
+        .iter()
+        .flat_map(|t| t.fields.iter().flat_map(|f| f.params.iter().map(|p| p.name.clone())))
+        .chain(["extra".to_string()])
+        .collect();
     let nf = root_sels(doc).map(|s| count_fields(s)).unwrap_or(0);
     let pick_field = |rng: &mut Rng, doc: &mut Doc, f: &mut dyn FnMut(&mut FieldSel)| {
         if nf == 0 {
@@ -1663,7 +1677,7 @@ fn mutate(rng: &mut Rng, doc: &mut Doc) -> &'static str {
                     0 => f.sels.push(Sel::Inline { tc: Some("Prime".into()), dirs, sels: inner }),
                     1 => f.sels = vec![Sel::Inline { tc: None, dirs, sels: inner }],
                     2 => f.sels = vec![Sel::Inline { tc: Some("Prime".into()), dirs: vec![], sels: vec![Sel::Inline { tc: Some("Prime".into()), dirs, sels: inner }] }],
-                    _ => f.sels = vec![Sel::Inline { tc: Some(r.pick(&["Prime", "Composite", "Nope", "Number", "Int"]).to_string()), dirs, sels: inner }],
+                    _ => f.sels = vec![Sel::Inline { tc: Some(r.pick(&type_names).clone()), dirs, sels: inner }],
                 }
             });
             "mut:inline-shapes"
@@ -1687,19 +1701,19 @@ fn mutate(rng: &mut Rng, doc: &mut Doc) -> &'static str {
             // edge / root argument shapes
             let mut r = rng.fork();
             pick_field(rng, doc, &mut |f| {
-                let nm = *r.pick(&["max", "min", "extra"]);
+                let nm = r.pick(&param_names).clone();
                 let v = weird_values(&mut r);
                 if r.chance(1, 2) {
                     f.args.retain(|a| a.name != nm);
                 }
-                f.args.push(Arg { name: nm.into(), value: v });
+                f.args.push(Arg { name: nm, value: v });
             });
             "mut:field-args"
         }
         28 => {
             let mut r = rng.fork();
             pick_field(rng, doc, &mut |f| {
-                f.name = r.pick(&["__typename", "nope", "value", "successor", "Number", "Zero"]).to_string();
+                f.name = r.pick(&field_names).clone();
             });
             "mut:rename-field"
         }
@@ -1766,7 +1780,7 @@ fn mutate(rng: &mut Rng, doc: &mut Doc) -> &'static str {
             pick_field(rng, doc, &mut |f| {
                 if f.sels.is_empty() {
                     f.sels = vec![Sel::Inline {
-                        tc: Some(r.pick(&["Prime", "Int", "Nope"]).to_string()),
+                        tc: Some(r.pick(&type_names).clone()),
                         dirs: vec![],
                         sels: vec![Sel::Field(FieldSel { alias: None, name: "__typename".into(), args: vec![], dirs: vec![], sels: vec![] })],
                     }];
@@ -1855,10 +1869,11 @@ fn frontend_class(r: &Result<(), FrontendError>) -> String {
     }
     match r {
         Ok(()) => "ok".to_string(),
+        Err(FrontendError::ParseError(p)) => format!("(err parse {})", parse_err_name(p)),
         Err(e) => {
             let mut v = vec![];
             names(e, &mut v);
-            format!("(err {})", v.join(" "))
+            format!("(err frontend {})", v.join(" "))
         }
     }
 }
@@ -1868,16 +1883,17 @@ fn run_text(schema: &Schema, text: &str) -> Result<String, String> {
     guarded(|| frontend_class(&trustfall_core::frontend::parse(schema, text).map(|_| ())))
 }
 
-/// the same pipeline minus the text parser, on a directly constructed AST
-fn run_ast(schema: &Schema, doc: &Doc) -> Result<String, String> {
+/// the same pipeline minus the text parser, on a directly constructed AST (may panic)
+fn compile_ast(schema: &Schema, doc: &Doc) -> String {
     let ast = doc_to_ast(doc);
-    guarded(|| {
-        let r = trustfall_core::frontend::parse_doc(schema, &ast).map(|ir| {
-            // what `frontend::parse` does next (mod.rs:51)
-            let _indexed: trustfall_core::ir::IndexedQuery = ir.try_into().unwrap();
-        });
-        frontend_class(&r)
-    })
+    let r = trustfall_core::frontend::parse_doc(schema, &ast).map(|ir| {
+        // what `frontend::parse` does next (mod.rs:51)
+        let _indexed: trustfall_core::ir::IndexedQuery = ir.try_into().unwrap();
+    });
+    frontend_class(&r)
+}
+fn run_ast(schema: &Schema, doc: &Doc) -> Result<String, String> {
+    guarded(|| compile_ast(schema, doc))
 }
 
 pub struct C10;
@@ -1900,30 +1916,50 @@ impl Prop for C10 {
         "Three streams. (valid) type-directed queries over the repo's `numbers` schema (root fields with parameters, properties incl. __typename, every edge, aliases, `... on` coercions, @optional/@recurse/@fold/@fold @transform(count) with @output/@filter/@tag, filters with variables and previously defined tags). (mut) one to three random mutations of such a query: drop/duplicate/transpose/insert a directive, wrong argument kinds, missing/extra/duplicated arguments, @transform chains, directives on the root field / operation / fragment spreads / inline fragments, 1/2/3 named operations, fragments defined/used/unused, variable definitions, mutation/subscription, aliases everywhere, numeric edge cases of `depth`, filter operand shapes, renamed fields incl. __typename, coercion under a property, and structures that no text can produce (empty operation map, empty selection set). Each abstract document is sent to the model as an s-expression and to the implementation as a directly constructed ExecutableDocument: `(parse-doc d)` compares the outcome class of graphql_query::query::parse_document (ok / error variant / panic). A case is non-trivial (`nt:`) when its answer is not plain `ok`, i.e. an error path or a panic of the parse layer is exercised, or when it is `ok` with at least one @fold/@transform/@recurse/@optional/coercion. (bytes) rendered valid query text with 1-4 random character edits, `(text-nopanic hex)`: exploration of the unmodelled text parser, both sides answer the constant `nopanic`. ORACLE (all streams): frontend::parse on the rendered text and frontend::parse_doc + IndexedQuery conversion on the constructed AST must not panic for any document a text could produce; when a document renders to text, async_graphql_parser::parse_query of that text must give exactly the constructed AST (self-check that the abstract document is what the parser produces) and the same parse-layer outcome."
     }
     fn generate(&self, tier: Tier, rng: &mut Rng) -> Vec<Case> {
-        let si = SchemaInfo::load("numbers");
-        let (n_valid, n_mut, n_bytes) = if tier == Tier::Quick { (3000, 20000, 8000) } else { (30000, 250000, 80000) };
+        let (n_valid, n_mut, n_bytes) = if tier == Tier::Quick { (2500, 9000, 6000) } else { (25000, 120000, 60000) };
         let mut out = vec![];
-        for _ in 0..n_valid {
-            let doc = gen_valid(rng, &si);
-            let mut tags = vec!["stream:valid".to_string()];
-            histogram_doc_tags(&doc, &mut tags);
-            out.push(Case { request: Sexp::call("parse-doc", vec![doc_to_sexp(&doc)]), tags });
-        }
-        for _ in 0..n_mut {
-            let mut doc = gen_valid(rng, &si);
-            let k = 1 + rng.below(3);
-            let mut tags = vec!["stream:mut".to_string()];
-            for _ in 0..k {
-                tags.push(mutate(rng, &mut doc).to_string());
+        let mut emit = |doc: &Doc, si: &SchemaInfo, view: &Sexp, mut tags: Vec<String>, also_parse: bool, out: &mut Vec<Case>| {
+            histogram_doc_tags(doc, &mut tags);
+            tags.push(format!("schema:{}", si.id));
+            let dx = doc_to_sexp(doc);
+            if also_parse {
+                out.push(Case { request: Sexp::call("parse-doc", vec![dx.clone()]), tags: tags.clone() });
             }
-            histogram_doc_tags(&doc, &mut tags);
-            out.push(Case { request: Sexp::call("parse-doc", vec![doc_to_sexp(&doc)]), tags });
-        }
-        for _ in 0..n_bytes {
-            let doc = gen_valid(rng, &si);
-            let text = render_doc(&doc).expect("valid documents render");
-            let edited = edit_text(rng, &text);
-            out.push(Case::new(Sexp::call("text-nopanic", vec![Sexp::atom(hex(edited.as_bytes()))]), &["stream:bytes"]));
+            out.push(Case { request: Sexp::call("compile-doc", vec![Sexp::atom(si.id.clone()), view.clone(), dx]), tags });
+        };
+        for (id, share) in [("numbers", 3usize), ("c10a", 2), ("c10dup", 0)] {
+            let si = SchemaInfo::load(id);
+            let view = si.view_sexp();
+            let (nv, nm) = if share == 0 { (60, 200) } else { (n_valid * share / 5, n_mut * share / 5) };
+            for _ in 0..nv {
+                let doc = gen_valid(rng, &si);
+                let also = rng.chance(1, 3);
+                emit(&doc, &si, &view, vec!["stream:valid".to_string()], also, &mut out);
+            }
+            for _ in 0..nm {
+                let mut doc = gen_valid(rng, &si);
+                let k = 1 + rng.below(3);
+                let mut tags = vec!["stream:mut".to_string()];
+                for _ in 0..k {
+                    tags.push(mutate(rng, &mut doc, &si).to_string());
+                }
+                let also = rng.chance(1, 3);
+                emit(&doc, &si, &view, tags, also, &mut out);
+            }
+            if share > 0 {
+                for _ in 0..(n_bytes * share / 5) {
+                    let doc = gen_valid(rng, &si);
+                    let text = render_doc(&doc).expect("valid documents render");
+                    let edited = edit_text(rng, &text);
+                    out.push(Case::new(Sexp::call("text-nopanic", vec![Sexp::atom(hex(edited.as_bytes()))]), &["stream:bytes"]));
+                    // what the text parser makes of the edited text goes to the model as well
+                    if let Ok(Ok(ast)) = guarded(|| async_graphql_parser::parse_query(&edited)) {
+                        if let Some(d2) = ast_to_doc(&ast) {
+                            emit(&d2, &si, &view, vec!["stream:bytes-parsed".to_string()], false, &mut out);
+                        }
+                    }
+                }
+            }
         }
         out
     }
@@ -1933,6 +1969,11 @@ impl Prop for C10 {
             ("parse-doc", [dx]) => {
                 let doc = sexp_to_doc(dx)?;
                 Some(parse_layer_answer(&doc))
+            }
+            ("compile-doc", [id, _view, dx]) => {
+                let schema = schema(id.as_atom()?)?;
+                let doc = sexp_to_doc(dx)?;
+                Some(compile_ast(schema, &doc))
             }
             ("text-nopanic", [x]) => {
                 let _ = String::from_utf8(unhex(x.as_atom()?)?).ok()?;
@@ -1944,6 +1985,28 @@ impl Prop for C10 {
     }
     fn post_tags(&self, e: &Evaluated) -> Vec<String> {
         let mut t = vec![];
+        if let Some(("compile-doc", [_id, _v, dx])) = e.request.as_call() {
+            let class = if e.answer.starts_with("(err parse") {
+                "compile:parse-error".to_string()
+            } else if e.answer.starts_with("(err frontend") {
+                let first = e.answer.trim_start_matches("(err frontend ").trim_end_matches(')').split(' ').next().unwrap_or("").to_string();
+                format!("compile:err:{first}")
+            } else {
+                format!("compile:{}", e.answer)
+            };
+            t.push(class);
+            if !e.answer.starts_with("(err parse") {
+                t.push("nt:reaches-frontend".into());
+            }
+            if let Some(doc) = sexp_to_doc(dx) {
+                if !producible(&doc) {
+                    t.push("non-producible".into());
+                } else if render_doc(&doc).is_some() {
+                    t.push("renders".into());
+                }
+            }
+            return t;
+        }
         if let Some(("parse-doc", [dx])) = e.request.as_call() {
             t.push(format!("parse:{}", e.answer.trim_start_matches("(err ").trim_end_matches(')')));
             if e.answer != "ok" {
@@ -1967,7 +2030,7 @@ impl Prop for C10 {
         t
     }
     fn oracle(&self, evaluated: &[Evaluated]) -> Vec<OracleFailure> {
-        let schema = schema("numbers").unwrap();
+        let numbers = schema("numbers").unwrap();
         let mut fails = vec![];
         fn mk(info: &str, stage: &str, e: &Evaluated, text: Option<&str>) -> OracleFailure {
             OracleFailure {
@@ -1978,77 +2041,88 @@ impl Prop for C10 {
         }
         for e in evaluated {
             let Some((h, args)) = e.request.as_call() else { continue };
-            match (h, args) {
-                ("parse-doc", [dx]) => {
-                    let Some(doc) = sexp_to_doc(dx) else { continue };
-                    if !producible(&doc) {
-                        continue; // no query text yields this structure: outside the property
-                    }
-                    if let Some(info) = &e.panic_info {
-                        fails.push(mk(info, "parse_document(ast)", e, None));
-                    }
-                    if let Err(info) = run_ast(schema, &doc) {
-                        if e.panic_info.is_none() {
-                            fails.push(mk(&info, "frontend(ast)", e, None));
-                        }
-                    }
-                    if let Some(text) = render_doc(&doc) {
-                        // self-check: the text parser yields exactly the constructed AST
-                        match guarded(|| async_graphql_parser::parse_query(&text)) {
-                            Ok(Ok(parsed)) => {
-                                if normalized_debug(&parsed) != normalized_debug(&doc_to_ast(&doc)) {
-                                    fails.push(OracleFailure {
-                                        key: "harness:text-ast-mismatch".into(),
-                                        detail: format!("text={text}"),
-                                        requests: vec![e.line.clone()],
-                                    });
-                                }
-                            }
-                            Ok(Err(err)) => fails.push(OracleFailure {
-                                key: "harness:rendered-text-rejected".into(),
-                                detail: format!("{err:?} text={text}"),
-                                requests: vec![e.line.clone()],
-                            }),
-                            Err(info) => fails.push(mk(&info, "parse_query(text)", e, Some(&text))),
-                        }
-                        if let Err(info) = run_text(schema, &text) {
-                            if e.panic_info.is_none() {
-                                fails.push(mk(&info, "frontend(text)", e, Some(&text)));
-                            }
-                        }
-                    }
+            let (sch, dx, is_compile) = match (h, args) {
+                ("parse-doc", [dx]) => (numbers, dx, false),
+                ("compile-doc", [id, _v, dx]) => {
+                    let Some(sc) = id.as_atom().and_then(schema) else { continue };
+                    (sc, dx, true)
                 }
                 ("text-nopanic", [x]) => {
                     let Some(text) = x.as_atom().and_then(unhex).and_then(|b| String::from_utf8(b).ok()) else { continue };
-                    if let Err(info) = run_text(schema, &text) {
+                    if let Err(info) = run_text(numbers, &text) {
                         fails.push(mk(&info, "frontend(text)", e, Some(&text)));
                     }
+                    continue;
                 }
-                _ => {}
+                _ => continue,
+            };
+            let Some(doc) = sexp_to_doc(dx) else { continue };
+            if !producible(&doc) {
+                continue; // no query text yields this structure: outside the property
+            }
+            if let Some(info) = &e.panic_info {
+                fails.push(mk(info, if is_compile { "frontend(ast)" } else { "parse_document(ast)" }, e, None));
+            }
+            if !is_compile {
+                if let Err(info) = run_ast(sch, &doc) {
+                    if e.panic_info.is_none() {
+                        fails.push(mk(&info, "frontend(ast)", e, None));
+                    }
+                }
+            }
+            if let Some(text) = render_doc(&doc) {
+                // self-check: the text parser yields exactly the constructed AST
+                match guarded(|| async_graphql_parser::parse_query(&text)) {
+                    Ok(Ok(parsed)) => {
+                        if normalized_debug(&parsed) != normalized_debug(&doc_to_ast(&doc)) {
+                            fails.push(OracleFailure {
+                                key: "harness:text-ast-mismatch".into(),
+                                detail: format!("text={text}"),
+                                requests: vec![e.line.clone()],
+                            });
+                        }
+                    }
+                    Ok(Err(err)) => fails.push(OracleFailure {
+                        key: "harness:rendered-text-rejected".into(),
+                        detail: format!("{err:?} text={text}"),
+                        requests: vec![e.line.clone()],
+                    }),
+                    Err(info) => fails.push(mk(&info, "parse_query(text)", e, Some(&text))),
+                }
+                match run_text(sch, &text) {
+                    Err(info) => {
+                        if e.panic_info.is_none() {
+                            fails.push(mk(&info, "frontend(text)", e, Some(&text)));
+                        }
+                    }
+                    Ok(class) => {
+                        // text path and AST path must agree on the outcome class
+                        if is_compile && e.panic_info.is_none() && class != e.answer {
+                            fails.push(OracleFailure {
+                                key: "harness:text-vs-ast-outcome".into(),
+                                detail: format!("text={text} text-class={class} ast-class={}", e.answer),
+                                requests: vec![e.line.clone()],
+                            });
+                        }
+                    }
+                }
             }
         }
         fails
     }
     fn extra_stats(&self, evaluated: &[Evaluated]) -> serde_json::Value {
-        let schema = schema("numbers").unwrap();
         let mut classes: BTreeMap<String, u64> = BTreeMap::new();
         let mut text_ok = 0u64;
         let mut text_total = 0u64;
         for e in evaluated {
             match e.request.as_call() {
-                Some(("parse-doc", [dx])) => {
-                    if let Some(doc) = sexp_to_doc(dx) {
-                        let c = match run_ast(schema, &doc) {
-                            Ok(c) => c,
-                            Err(_) => "panic".to_string(),
-                        };
-                        *classes.entry(c).or_default() += 1;
-                    }
+                Some(("compile-doc", _)) => {
+                    *classes.entry(e.answer.clone()).or_default() += 1;
                 }
                 Some(("text-nopanic", [x])) => {
                     text_total += 1;
                     if let Some(text) = x.as_atom().and_then(unhex).and_then(|b| String::from_utf8(b).ok()) {
-                        if async_graphql_parser::parse_query(&text).is_ok() {
+                        if let Ok(Ok(_)) = guarded(|| async_graphql_parser::parse_query(&text)) {
                             text_ok += 1;
                         }
                     }
@@ -2056,11 +2130,13 @@ impl Prop for C10 {
                 _ => {}
             }
         }
+        let distinct_classes = classes.len();
         let mut top: Vec<(String, u64)> = classes.into_iter().collect();
         top.sort_by(|a, b| b.1.cmp(&a.1));
-        let frontend_classes: BTreeMap<String, u64> = top.into_iter().take(40).collect();
+        let top: Vec<serde_json::Value> = top.into_iter().take(60).map(|(k, v)| serde_json::json!([k, v])).collect();
         serde_json::json!({
-            "frontend_outcome_classes_top40": frontend_classes,
+            "compile_outcome_classes_distinct": distinct_classes,
+            "compile_outcome_classes_top60": top,
             "byte_stream_texts": text_total,
             "byte_stream_texts_accepted_by_text_parser": text_ok,
         })
@@ -2084,6 +2160,24 @@ fn main() {
                 Ok(s) => println!("{line}\n   => {s}"),
                 Err(p) => println!("{line}\n   => PANIC {p}"),
             }
+        }
+        return;
+    }
+    if args.len() >= 2 && args[1] == "mkcorpus" {
+        // developer aid: `frontend mkcorpus < lines` where a line is `<schema-id><TAB><query text>`;
+        // prints the `(compile-doc …)` request of each text (and `(parse-doc …)` for schema `numbers`)
+        use std::io::BufRead;
+        for line in std::io::stdin().lock().lines() {
+            let line = line.unwrap();
+            let Some((id, text)) = line.split_once('\t') else { continue };
+            let si = SchemaInfo::load(id);
+            let ast = async_graphql_parser::parse_query(text).expect("corpus text must parse");
+            let doc = ast_to_doc(&ast).unwrap();
+            println!("# {id}: {text}");
+            if id == "numbers" {
+                println!("{}", Sexp::call("parse-doc", vec![doc_to_sexp(&doc)]));
+            }
+            println!("{}", Sexp::call("compile-doc", vec![Sexp::atom(id), si.view_sexp(), doc_to_sexp(&doc)]));
         }
         return;
     }
